@@ -24,7 +24,7 @@ TIMEOUT = {"quick": 1200, "thorough": 7200}
 
 def generate(tier, seed):
     cases = []
-    ncloud = 160 if tier == "quick" else 4000
+    ncloud = 600 if tier == "quick" else 4000
     for k in range(ncloud):
         cases.append({"kind": "cloud", "seed": "%d:cloud:%d" % (seed, k), "cost": 2})
     reps = 1 if tier == "quick" else 8
